@@ -331,9 +331,9 @@ def _chi_patterns(n, full):
     return sorted(pats)
 
 
-def rule_mem(b):
+def rule_mem(b, only_refcount=False):
     def rule(ctx):
-        res = RuleResult("R-MEM/" + b, "memory-management sequences of the %s backend (Memory::store, load, share_block_n, erase_block incl. "
+        res = RuleResult(("R-MEM/" if not only_refcount else "R-MEMRC/") + b, "memory-management sequences of the %s backend (Memory::store, load, share_block_n, erase_block incl. "
                          "the private acquire/release/erase-children code they expand to) validated on every path of the emitted list "
                          "against a reference semantics of the lazy reference-counting scheme (block layout folded from config; two "
                          "free lists; lazy erasure; linked blocks with F values in the last and F-1 in the other blocks): for each "
@@ -425,6 +425,11 @@ def rule_mem(b):
                         bad.append(("%s(%s%s)" % (name, _l(tg.loc_of(t)), "" if n is None else ", %d" % n), pr, facts))
             report("%s:%s" % (b, name), f, bad, n_cls)
 
+        if only_refcount:
+            # the part a substitution relies on: share_block_n / erase_block of every temporary, registers and spill slots alike
+            res.inst(b + ":coverage", f0["sp"]["file"], f0["sp"]["line"], "ok", "%d classes, %d paths followed" % (stats["cases"], stats["paths"]))
+            res.require_floor(3)
+            return res
         # ---- store ----
         key = _mem_key(tg, "store")
         f = ctx.fx.fns[key]
